@@ -1,0 +1,70 @@
+//go:build verif
+
+// Contracts for package noiseutil, checked by /verif/govc (contract-based
+// deductive verification). Compiled only with -tags verif. The //@ blocks are
+// the contracts; the Go functions are specification functions.
+
+package noiseutil
+
+import "encoding/binary"
+
+// ---- contract vocabulary (evaluated symbolically by govc, never executed) ----
+
+func old[T any](x T) T        { return x }
+func implies(a, b bool) bool  { return !a || b }
+func same[T any](a, b T) bool { return true }
+
+// =====================================================================
+// C13 — the data-plane ciphers never seal at or beyond the counter ceiling,
+// and the nonce they hand to the AEAD is an injective encoding of the counter
+// =====================================================================
+//
+// Every implementation of CipherState.EncryptDanger is verified against the
+// same clauses: the AEAD's Seal is reached at most once, only for a counter
+// below RejectAfterMessages, and with a nonce whose bytes 4..11 are the
+// counter (big endian for the GCM ciphers, little endian for ChaCha20-Poly1305)
+// — so two different counters can never produce the same nonce. `sealed`
+// counts calls of Seal (an effect counter incremented by Seal's contract).
+
+//@ func specBE
+//@   pure
+func specBE(nb []byte) uint64 { return binary.BigEndian.Uint64(nb[4:12]) }
+
+//@ func specLE
+//@   pure
+func specLE(nb []byte) uint64 { return binary.LittleEndian.Uint64(nb[4:12]) }
+
+//@ func crypto/cipher.(AEAD).Seal
+//@   trusted the AEAD primitive (Go standard library / x/crypto): encrypts plaintext under the given nonce
+//@   effect sealed
+
+//@ func (*CipherStateAESGCM).EncryptDanger
+//@   props C13
+//@   ghost sealed int = 0
+//@   requires len(nb) >= 12 && implies(s != nil, s.c != nil)
+//@   callrequires crypto/cipher.(AEAD).Seal n < RejectAfterMessages && same(arg2, nb) && nb[0] == 0 && nb[1] == 0 && nb[2] == 0 && nb[3] == 0 && specBE(nb) == n && same(arg3, plaintext) && same(arg4, ad) && same(arg1, out)
+//@   ensures[ceiling] implies(n >= RejectAfterMessages, result1 != nil && sealed == 0)
+//@   ensures[once]    sealed <= 1 && implies(result1 == nil, sealed == 1 && n < RejectAfterMessages)
+
+//@ func (*CipherStateChaChaPoly).EncryptDanger
+//@   props C13
+//@   ghost sealed int = 0
+//@   requires len(nb) >= 12 && implies(s != nil, s.c != nil)
+//@   callrequires crypto/cipher.(AEAD).Seal n < RejectAfterMessages && same(arg2, nb) && nb[0] == 0 && nb[1] == 0 && nb[2] == 0 && nb[3] == 0 && specLE(nb) == n && same(arg3, plaintext) && same(arg4, ad) && same(arg1, out)
+//@   ensures[ceiling] implies(n >= RejectAfterMessages, result1 != nil && sealed == 0)
+//@   ensures[once]    sealed <= 1 && implies(result1 == nil, sealed == 1 && n < RejectAfterMessages)
+
+// The FIPS 140 GCM wrapper goes through its own Seal method (which initialises
+// the TLS 1.3 AEAD on first use and then calls it); bytes 0..3 of the nonce are
+// whatever the caller's scratch buffer holds (callers keep them zero).
+//@ func (*aeadGCMFIPS140Cipher).Seal
+//@   trusted wrapper around the TLS 1.3 AES-GCM AEAD of the standard library (enforces increasing nonces itself)
+//@   effect sealed
+
+//@ func (*aeadGCMFIPS140Cipher).EncryptDanger
+//@   props C13
+//@   ghost sealed int = 0
+//@   requires len(nb) >= 12
+//@   callrequires (*aeadGCMFIPS140Cipher).Seal n < RejectAfterMessages && same(arg2, nb) && specBE(nb) == n && same(arg3, plaintext) && same(arg4, ad) && same(arg1, out)
+//@   ensures[ceiling] implies(n >= RejectAfterMessages, result1 != nil && sealed == 0)
+//@   ensures[once]    sealed <= 1 && implies(result1 == nil, sealed == 1 && n < RejectAfterMessages)
